@@ -22,8 +22,7 @@ class C01(Prop):
                  "fuzzing of histories (atheris/libFuzzer driving Hypothesis' fuzz_one_input)")
     FUZZ_RUNS = 400
     ASSUMPTIONS = ["ledger of submitted pages is the ground truth (built from request inputs only)",
-                   "known finding K2 (add_pages ignores crawled=False) is tolerated exactly on pages whose only "
-                   "crawled evidence is add_pages(..., crawled=False)"]
+                   "a page is 'marked crawled' by add_page(crawled=True), add_pages(crawled=True) or as the source of a crawl batch"]
 
     def before_op(self, case, op):
         if op[0] in ("page", "pages", "links", "batch"):
@@ -77,18 +76,5 @@ class C01(Prop):
 
     def nontrivial(self, case):
         return "resubmission" in case.flags and "related-new-lru-in-request" in case.flags
-
-    def known_repros(self):
-        def k2(ctx):
-            from ..core import Case
-            from ..ops import Config
-            case = Case(self, ctx, Config(), None)
-            try:
-                case.idx.apply(("pages", [b"s:http|h:com|h:a|"], False))
-                return dict(ob.pages(case)).get(b"s:http|h:com|h:a|") is True
-            finally:
-                case.abort()
-        return {"K2": k2}
-
 
 PROP = C01()
